@@ -29,6 +29,8 @@ type footRoot struct {
 }
 
 type footprint struct {
+	loopFrom, loopTo token.Pos // source range of the loop (locals declared inside are fresh per iteration)
+	allocMark        *Term
 	roots    []footRoot
 	cells    map[*Cell]bool
 	reslice  map[*Cell]bool // true while every assignment seen is a self-reslice
@@ -38,6 +40,8 @@ type footprint struct {
 
 func (e *Exec) havocLoop(st *State, d loopDesc, spec *LoopSpec) {
 	fp := &footprint{cells: map[*Cell]bool{}, reslice: map[*Cell]bool{}, visiting: map[ast.Node]bool{}}
+	fp.loopFrom, fp.loopTo = d.node.Pos(), d.node.End()
+	fp.allocMark = st.ghostVar(allocGhost, SInt)
 	for _, c := range d.extra {
 		fp.cells[c] = true
 	}
@@ -439,6 +443,9 @@ func (e *Exec) writeTarget(st *State, lhs ast.Expr, fp *footprint, info *types.I
 					}
 				}
 			}
+			if tg.root == nil && e.loopLocalValue(n.X, fp, info) {
+				tg.freshOnly, tg.allocMark = true, fp.allocMark
+			}
 			fp.targets = append(fp.targets, tg)
 			return
 		case *ast.StarExpr:
@@ -517,6 +524,13 @@ func (e *Exec) scanCallWrites(st *State, call *ast.CallExpr, fp *footprint, info
 					if v, ok := e.evalAtHead(st, call.Args[0], fp, info); ok {
 						if sv, ok := toSlice(v); ok {
 							tg.root = sv.Arr
+						}
+					}
+					if tg.root == nil {
+						if arr, ok := e.resolveArrayRoot(st, call.Args[0], fp, info, 0); ok {
+							tg.root = arr
+						} else if e.loopLocalValue(call.Args[0], fp, info) {
+							tg.freshOnly, tg.allocMark = true, fp.allocMark
 						}
 					}
 					fp.targets = append(fp.targets, tg)
@@ -860,4 +874,42 @@ func (e *Exec) resolveArrayRoot(st *State, x ast.Expr, fp *footprint, info *type
 		}
 	}
 	return nil, false
+}
+
+// loopLocalValue: the expression denotes (part of) a by-value local declared inside the loop, i.e.
+// memory that is freshly allocated in every iteration (arrays inside struct or array locals).
+func (e *Exec) loopLocalValue(x ast.Expr, fp *footprint, info *types.Info) bool {
+	for {
+		switch n := ast.Unparen(x).(type) {
+		case *ast.SliceExpr:
+			x = n.X
+		case *ast.IndexExpr:
+			if _, isArr := info.TypeOf(n.X).Underlying().(*types.Array); !isArr {
+				return false
+			}
+			x = n.X
+		case *ast.SelectorExpr:
+			if isPointerType(info.TypeOf(n.X)) {
+				return false
+			}
+			x = n.X
+		case *ast.Ident:
+			obj := info.Uses[n]
+			if obj == nil {
+				obj = info.Defs[n]
+			}
+			v, ok := obj.(*types.Var)
+			if !ok {
+				return false
+			}
+			switch reprOf(v.Type()) {
+			case rStruct, rArray:
+			default:
+				return false
+			}
+			return v.Pos() > fp.loopFrom && v.Pos() < fp.loopTo
+		default:
+			return false
+		}
+	}
 }
